@@ -9,6 +9,7 @@ package simconn
 import (
 	"strings"
 	"sync"
+	"sync/atomic"
 
 	nats "github.com/nats-io/nats.go"
 
@@ -81,6 +82,11 @@ type Conn struct {
 	YieldFn func(point, arg string)
 
 	Stats Stats
+
+	// sendSeq orders the scheduler's channel sends before Close, as
+	// nats.Conn.Close waits for its reader goroutine: the scheduler only
+	// ever adds to it, Close only loads it.
+	sendSeq atomic.Int64
 }
 
 // Stats counts what happened at the transport seam.
@@ -218,6 +224,7 @@ func (c *Conn) subscribe(subject, queue string, ch chan *nats.Msg) (*nats.Subscr
 // Close implements res.Conn.
 func (c *Conn) Close() {
 	c.yield("conn.Close", "")
+	c.sendSeq.Load()
 	c.mu.Lock()
 	defer c.mu.Unlock()
 	c.CloseCount++
@@ -252,10 +259,19 @@ func (c *Conn) Unsubscribe(subject string) bool {
 
 // ---- peer side (called by the scheduler goroutine or harness tasks) ----
 
+// The peer-side functions below are called by the scheduler goroutine. In
+// race builds they are hidden from the race detector (no instrumentation, and
+// their lock operations are not synchronisation events), so that the
+// scheduler never becomes a happens-before hub between tasks.
+
 // Inject routes a message published by a peer to the service's
 // subscriptions with NATS semantics and appends the resulting deliveries to
 // the inbound FIFO. It returns the deliveries created.
+//
+//go:norace
 func (c *Conn) Inject(subject, reply string, data []byte) []*Delivery {
+	sched.RaceDisable()
+	defer sched.RaceEnable()
 	c.mu.Lock()
 	defer c.mu.Unlock()
 	c.nextMsgID++
@@ -286,7 +302,11 @@ func (c *Conn) Inject(subject, reply string, data []byte) []*Delivery {
 }
 
 // PendingInbound returns the number of messages waiting to be delivered.
+//
+//go:norace
 func (c *Conn) PendingInbound() int {
+	sched.RaceDisable()
+	defer sched.RaceEnable()
 	c.mu.Lock()
 	defer c.mu.Unlock()
 	return len(c.Inbound)
@@ -295,7 +315,11 @@ func (c *Conn) PendingInbound() int {
 // DeliverHead delivers the head of the inbound FIFO the way nats.go delivers
 // to a channel subscription: a non-blocking send, dropping on a full channel.
 // If lose is true the message is lost in the network instead.
+//
+//go:norace
 func (c *Conn) DeliverHead(lose bool) *Delivery {
+	sched.RaceDisable()
+	defer sched.RaceEnable()
 	c.mu.Lock()
 	defer c.mu.Unlock()
 	if len(c.Inbound) == 0 {
@@ -313,6 +337,11 @@ func (c *Conn) DeliverHead(lose bool) *Delivery {
 	case !d.Sub.Active:
 		d.Dropped = "unsub"
 	default:
+		// the hand-over of the message is a real synchronisation event (as it
+		// is between nats.go's reader goroutine and the receiver); the
+		// scheduler goroutine never acquires anything from tasks, so this
+		// release carries only its own history
+		sched.RaceEnable()
 		select {
 		case d.Sub.Ch <- d.Msg:
 			c.Stats.Delivered++
@@ -320,6 +349,8 @@ func (c *Conn) DeliverHead(lose bool) *Delivery {
 			d.Dropped = "slow"
 			c.Stats.SlowDrops++
 		}
+		c.sendSeq.Add(1)
+		sched.RaceDisable()
 	}
 	c.Delivered = append(c.Delivered, d)
 	return d
